@@ -379,6 +379,13 @@ C15_PresetIdKept == fresh = "Idle" =>
 \* retransmission -- is identifiable as RequestTimeoutError (the scenarios use no other deadline)
 C19_TimeoutTyped == \A o \in 1..Len(onerrs) : onerrs[o].cls = "deadline" => onerrs[o].timeout
 
+\* "a cancelled caller context's error" stays inspectable: Connect of the reconnecting client gives up only because its
+\* context ended, so once the application cancelled that context (event CancelConnect) a failing Connect reports the
+\* context's error -- whatever dial or CONNECT failures the loop had met before (seeded change c19g)
+C19_ConnectCtxErr ==
+  (fresh = "Ret" /\ T[l - 1].kind = "Connect" /\ T[l - 1].res # "nil" /\ \E e \in 1..(l - 2) : T[e].e = "CancelConnect")
+     => T[l - 1].res \in {"canceled", "deadline"}
+
 \* ---- C17 ---------------------------------------------------------------
 \* Handle calls are made by one goroutine: k-th call = handles[2k-1] (call) and handles[2k] (ret).
 NH == Len(handles) \div 2
@@ -422,7 +429,7 @@ Obs == [
   C03_OrderPerConn |-> C03_OrderPerConn, C03_FirstTxOrder |-> C03_FirstTxOrder, C03_FirstDeliveryOrder |-> C03_FirstDeliveryOrder,
   C08_StableSubs |-> C08_StableSubs, C08_NoResubUnlessDue |-> C08_NoResubUnlessDue,
   C12_DupFlag |-> C12_DupFlag, C12_SameOnRetx |-> C12_SameOnRetx, C12_NoPubAfterRel |-> C12_NoPubAfterRel,
-  C12_NoQoS0Retx |-> C12_NoQoS0Retx, C12_RelHasPublish |-> C12_RelHasPublish, C12_AsSubmitted |-> C12_AsSubmitted, C15_PresetIdKept |-> C15_PresetIdKept, C05_PacketsWellFormed |-> C05_PacketsWellFormed, C19_TimeoutTyped |-> C19_TimeoutTyped,
+  C12_NoQoS0Retx |-> C12_NoQoS0Retx, C12_RelHasPublish |-> C12_RelHasPublish, C12_AsSubmitted |-> C12_AsSubmitted, C15_PresetIdKept |-> C15_PresetIdKept, C05_PacketsWellFormed |-> C05_PacketsWellFormed, C19_TimeoutTyped |-> C19_TimeoutTyped, C19_ConnectCtxErr |-> C19_ConnectCtxErr,
   C17_RightHandler |-> C17_RightHandler, C17_AtMostOnce |-> C17_AtMostOnce, C17_NoneDropped |-> C17_NoneDropped,
   C18_TimeoutClosesAndReports |-> C18_TimeoutClosesAndReports, C18_NoStall |-> C18_NoStall ]
 
